@@ -328,6 +328,22 @@ where
             cfgs.push(c);
         }
     }
+    // security levels ABOVE the usual 128 (and above 160 = half of a 40-byte serialized digest, above 128 = half of a
+    // 32-byte one): the column count must keep following the key's level
+    if S::NAME == "LIG" {
+        for lc in [(200usize, 4usize, true), (250, 2, false), (161, 4, false), (129, 2, true)] {
+            let mut c = KeyCfg::uni(1 << 20, 1 << 20, 1, None);
+            c.lc = Some(lc);
+            cfgs.push(c);
+        }
+    }
+    if S::NAME == "MLL" {
+        for lc in [(200usize, 2usize, false), (170, 4, true)] {
+            let mut c = KeyCfg::ml(10);
+            c.lc = Some(lc);
+            cfgs.push(c);
+        }
+    }
     if S::NAME == "MLL" {
         for nv in [9usize, 10] {
             for lc in [(20usize, 2usize, false), (20, 4, false), (12, 2, true)] {
